@@ -128,12 +128,16 @@ IocPlans(n, v) ==
   UNION {{<<OpDecodeAny(1, st[1], st[2], c[1]), OpPrint(1), OpFree(1)>> : st \in IocStreams(n, c[2])} : c \in IocCorruptions(RawEnv, TRef(n), v)}
   \cup UNION {{<<OpDecodeAny(1, st[1], st[2], c[1]), OpReset(1), OpDecodeInto(1, "DER", Enc("DER", TRef(n), v)), OpEncode(1, "DER"), OpFree(1)>> :
                  st \in IocStreams(n, c[2])} : c \in Take(IocCorruptions(RawEnv, TRef(n), v), 2)}
+\* big values (fragmented lengths): the reference encoders are not evaluated (TLC needs minutes per 64K-element
+\* sequence); the implementation's own encoding is the wire, decoding it must give the value back
+BigPlans == {<<OpBuild(1), OpEncode(1, s), OpDecode(2, s), OpCompare(1, 2), OpFree(1), OpFree(2)>> : s \in {"DER", "UPER", "OER"}}
 \* C19: the script a thread runs on one of its structures
 ThreadPlans == {<<OpBuild(1), OpEncode(1, s), OpDecode(2, s), OpCompare(1, 2), OpCheck(1), OpPrint(2), OpFree(1), OpFree(2)>> : s \in Syntaxes}
 PlansFor(n, v) ==
   CASE PlanSet = "check" -> CheckPlans(n, v)
     [] PlanSet = "thread" -> ThreadPlans
     [] PlanSet = "ioc" -> IocPlans(n, v)
+    [] PlanSet = "big" -> BigPlans
     [] PlanSet = "sinks" -> SinkPlans(n, v)
     [] PlanSet = "mutations" -> MutPlans(n, v)
     [] PlanSet = "life" -> LifePlans(n, v)
@@ -156,7 +160,7 @@ Spec == Init /\ [][Next]_vars
 
 Done == pc = Len(sc.plan) + 1
 Export == Done => PrintT(<<"SCN", ToJson([ty |-> sc.ty, val |-> sc.val, plan |-> sc.plan,
-                                          exp |-> [s \in {"DER", "UPER", "OER"} |-> IF wire[s] # NoWire THEN Enc(s, TypeOf(sc), sc.val) ELSE <<>>]])>>)
+                                          exp |-> [s \in {"DER", "UPER", "OER"} |-> IF wire[s] # NoWire /\ TheMod.name # "VB" THEN Enc(s, TypeOf(sc), sc.val) ELSE <<>>]])>>)
 ExportModule == PrintT(<<"MOD", ToJson(TheMod)>>)
 ASSUME ExportModule
 =============================================================================
